@@ -4,7 +4,7 @@ import json, os
 HERE = os.path.dirname(os.path.dirname(os.path.abspath(__file__)))
 
 HOOK_COMMITS = ["2cbbdff", "ac23892"]
-FIX_COMMITS = ["98bc2de", "ed106f3", "491bd24", "dfb98ff", "3df74c4", "b3f789f", "ab23d59", "444235d", "331aeac", "5e37f18", "e1dd2ec", "eba1a61", "907b67f", "fe271db", "5c59d40", "7ce9410", "d76c398", "44bbfd8", "1167486", "47e344c", "b3bcf3e", "c4fef33", "4349523", "033fd31", "c75fb35", "db1f79e"]
+FIX_COMMITS = ["98bc2de", "ed106f3", "491bd24", "dfb98ff", "3df74c4", "b3f789f", "ab23d59", "444235d", "331aeac", "5e37f18", "e1dd2ec", "eba1a61", "907b67f", "fe271db", "5c59d40", "7ce9410", "d76c398", "44bbfd8", "1167486", "47e344c", "b3bcf3e", "c4fef33", "4349523", "033fd31", "c75fb35", "db1f79e", "a26ec84", "b4fbf67", "3ba377a"]
 
 CHECKS = {
  # id: (engine, technique, level text, level note, design ref, has_thorough)
@@ -87,8 +87,12 @@ CHECKS["C19"] = ("rsx", "source-level symbolic execution (rsx + z3) of the objec
          "the file system is an effect-trace model (rename atomic, no disk faults), the path constructors are terms (C17), a dropped future runs the real Drop code of live FileWriter guards and nothing else; disk faults, process crashes, more than two writers symbolically and sub-await data races are outside the claim; the model is validated on the real backend on every run (about 190 fault runs); six known findings (temporary file leaked when dropped during File::create; object / metadata / internal-info are three files published one after another)",
          "DESIGN.md 0.8", True)
 
+CHECKS["C18"] = ("rsx", "source-level symbolic execution (rsx + z3) of get_object, copy_object, delete_object, put_object, upload_part, upload_part_copy, complete_multipart_upload, abort_multipart_upload and verify_upload_id of s3s-fs with Range::check, on the file-system effect-trace model of C19: ranged reads with symbolic 64-bit object length and Range value against the RFC 9110 slice (linear integer arithmetic), multipart ownership (no effect before verify_upload_id answered true; its verdict == stored key equals caller's), assembly order of completed uploads, side files following the object, no fs::copy onto itself; every finding confirmed on the real backend (fixed mini-scenarios + the solver's range witnesses); random operation histories against an in-memory object store as validation",
+         "for every object length below 2^63 and every Range value the parser can produce: refusal, seek position, streamed length, Content-Length and Content-Range are exactly the RFC 9110 slice's and nothing panics; on every path of the four upload-driving operations no file-system effect precedes an approving ownership check; every successful completion concatenates parts 1..n in order; every successful object write leaves the user-metadata file equal to this write's metadata; 40 (thorough: 300) histories x 80 operations agree with the in-memory model",
+         "claimed for these parts only: listings, bucket operations and whole histories are NOT decided symbolically (directory walks over a real tree) and are covered by the native history family alone; last-modified times and stored checksums are outside; a suffix range of an empty object is left open (RFC 9110 and S3 disagree); the file system is the effect-trace model of C19 (assumptions in the evidence)",
+         "DESIGN.md 0.8", True)
+
 NA = {
- "C18": "every operation is tokio::fs/std::fs I/O on a real directory tree; the quantified state is the file system, which neither Kani (no FFI/runtime) nor a source-level executor can execute; a model of the file system would verify the model, not the code",
 }
 
 def main():
